@@ -96,7 +96,7 @@ def val_term(v):
         return ufun('v_float', PyStr, Val)(lit(repr(v)))
     if isinstance(v, SBytes):
         return ufun('v_bytes', v.arr.sort(), z3.IntSort(), z3.IntSort(), Val)(v.arr, zint(v.off), zint(v.ln))
-    if isinstance(v, (bytes, bytearray)):
+    if isinstance(v, (bytes, bytearray, memoryview)):
         return ufun('v_cbytes', PyStr, Val)(lit(bytes(v).hex()))
     if isinstance(v, OpaqueVal):
         return ufun('v_opaque_' + v.tag, v.term.sort(), Val)(v.term)
